@@ -73,6 +73,8 @@ def project(pid, mm, ev):
     got, exp = got_kind(ev), exp_kinds(mm)
     involved = lambda cls: cls in got or any(cls in x for x in exp)
     out = [w for w in what if w in PROFILE_WHAT[pid]]
+    if pid == "C19" and ev["stmt"]["k"] != "insert" and "post" in out:
+        out.remove("post")        # defaults are an INSERT matter; updates are judged by the invariants on the log
     if "kind" in what and "kind" not in out:
         if pid == "C14" and involved("dup"):
             out.insert(0, "kind")
@@ -405,6 +407,40 @@ def binding_a(pid, binp, cfg, verdict, scd, walks, depth, rnd, probes=False):
     return stats
 
 
+def selftest_binding(trace, scd):
+    """Binding B rejects corrupted logs: in a copy of the first recorded history one affected-row
+    count is changed and one row is dropped from a logged table; TLC must report both statements."""
+    evs, hist = lib.read_ndjson(trace), []
+    for e in evs:
+        if e["ev"] == "schema" and hist:
+            break
+        hist.append(e)
+    hist = json.loads(json.dumps(hist))
+    want = {}
+    for e in hist:
+        if e["ev"] != "stmt" or e["reply"]["kind"] != "ok" or e["stmt"]["k"] not in ("insert", "update", "delete"):
+            continue
+        t = e["stmt"]["t"]
+        if "affected" not in want.values() and e["reply"]["affected"] >= 1:
+            e["reply"]["affected"] += 5
+            want[e["id"]] = "affected"
+        elif "post" not in want.values() and e["post"].get(t):
+            e["post"][t] = e["post"][t][1:]
+            want[e["id"]] = "post"
+            break          # later statements start from the corrupted table
+    if len(want) < 2:
+        return 0
+    p = os.path.join(scd, "selftest.ndjson")
+    lib.write_ndjson(p, [e for e in hist if e["ev"] == "schema" or e["id"] <= max(want)])
+    mms, _ = validate(p, per_chunk=1000, procs=1)
+    evs2 = sc.load_events(p)
+    seen = {evs2[m["line"]]["id"]: m["what"] for m in mms}
+    for i, w in want.items():
+        if w not in seen.get(i, []):
+            raise lib.Inconclusive("binding self-test: a corrupted %s at statement %d was not rejected by Trace_Tables (%s)" % (w, i, seen.get(i)))
+    return len(want)
+
+
 # ---------------------------------------------------------------- the generic check
 
 def check(pid, tier, profile, mc_quick, mc_thorough, dump_cfg, n_quick=40, n_thorough=400, floors=None, rule="", probes=False,
@@ -440,6 +476,8 @@ def check(pid, tier, profile, mc_quick, mc_thorough, dump_cfg, n_quick=40, n_tho
                 if measured.get(k, 0) < floor:
                     raise lib.Inconclusive("vacuous run: %s = %d < %d" % (k, measured.get(k, 0), floor))
             a_stats = None
+            if not quick:
+                lib.log("[%s] binding self-test: %d corrupted log entries rejected" % (pid, selftest_binding(trace, scd)))
             if not quick and dump_cfg:
                 a_stats = binding_a(pid, binp, dump_cfg, v, scd, walks=150, depth=20, rnd=random.Random(lib.seed()), probes=probes)
                 lib.log("[%s] binding A: %s" % (pid, {k: a_stats[k] for k in ("transitions_dumped", "replayed", "mismatches", "direct_compared", "direct_differ")}))
